@@ -88,6 +88,16 @@ Theorem C08_lzx_decoder_resumable : forall rule L a b s i s1 i1 rc ic r2 i2,
   rc = r2 /\ ic = i2.
 Proof. exact LzxResume.decompress_resumable. Qed.
 Print Assumptions C08_lzx_decoder_resumable.
+(* the same for one lzxd_decompress call with its sticky error, as the CHM and OAB models use it (Model/Chm.v extract: skip to the
+   member's offset, then its bytes): a call for a bytes that returns OK followed by a call for b bytes = one call for a + b *)
+Theorem C08_lzx_call_resumable : forall L s i a b s1 i1 st2 s2 i2 stc sc ic,
+  LzxSafe.Core L s -> Lzx.err s = 0 -> LzxSafe.Dd s + (a + b) < 70368744177664 ->
+  Lzx.lzx_call L s i a = (0, s1, i1) ->
+  Lzx.lzx_call L s1 i1 b = (st2, s2, i2) -> st2 <> 99 ->
+  Lzx.lzx_call L s i (a + b) = (stc, sc, ic) -> stc <> 99 ->
+  stc = st2 /\ ic = i2 /\ (stc = 0 -> sc = s2).
+Proof. exact LzxResume.lzx_call_resumable. Qed.
+Print Assumptions C08_lzx_call_resumable.
 Theorem C08_lzx_invariant_kept : forall L wb ri delta ref, 15 <= wb <= 25 ->
   LzxSafe.InvL L (Lzx.lzx_init wb ri delta ref) /\
   forall s i n st s' i', LzxSafe.InvL L s -> LzxSafe.Dd s + n < 70368744177664 -> Lzx.lzx_call L s i n = (st, s', i') -> LzxSafe.InvL L s'.
